@@ -517,6 +517,13 @@ def shard_history(plan_ref, seed, examples):
             prog += asm.route(rng.choice(('cp', 'cp', 'cp', 'cp', 'wfx', 'wfx', 'svc', 'udf')))
             for _ in range(rng.randrange(2, 5)):
                 prog += X() if rng.random() < 0.5 else asm.pool()
+        elif scen == 'return' and thumb and rng.random() < 0.3:
+            # the return is the last instruction of an IT block of the handler and restores exactly the state the handler runs in (SPSR = CPSR: same
+            # mode, flags, masks - and the ITSTATE of that last slot): it changes nothing, but it is a return, the restored ITSTATE is not advanced
+            same_fc = rng.randrange(14)
+            prog += [(enc('IT_T1', f=same_fc, m=8), False, None), (0xF3DE8F00, True, 'RETURN_SAME')]
+            for _r in range(rng.randrange(2, 5)):
+                prog += X() if rng.random() < 0.4 else asm.reader(VIEWS[rng.randrange(len(VIEWS))])
         elif scen == 'return':
             for _ in range(rng.randrange(1, 3)):
                 prog += X() if rng.random() < 0.5 else asm.reader(VIEWS[rng.randrange(len(VIEWS))])
@@ -615,6 +622,18 @@ def shard_history(plan_ref, seed, examples):
             st_['hcr'] = (st_.get('hcr', 0) & ~((1 << 27) | 1 | (1 << 12))) | (rng.getrandbits(1) << 20) | (rng.getrandbits(2) << 13) | (rng.getrandbits(1) << 19)
         if plan.tweak_case:
             plan.tweak_case(rng, x0[1], x0[2], case)
+        same_rets = [i for i, ins in enumerate(prog) if ins[2] == 'RETURN_SAME']
+        if same_rets:
+            from vf.props.c05 import passing_flags
+            nxt = (pc0 + offs[same_rets[0] + 1]) & M32
+            for k in list(st_):
+                if k.startswith('R.LR'):
+                    st_[k] = nxt
+            st_['cpsr'] = (st_['cpsr'] & 0x0FFFFFFF) | (passing_flags(rng, same_fc) << 28)
+            it_ = (same_fc << 4) | 8
+            v = (st_['cpsr'] & ~0x0600FC00) | ((it_ & 3) << 25) | ((it_ >> 2) << 10)
+            for k in gen.SPSR_KEYS:
+                st_[k] = v
         rets = [i for i, ins in enumerate(prog) if ins[2] == 'RETURN']
         if rets:
             # every LR bank returns to the instruction after the (first) return instruction; every SPSR restores the current PSR with 1-2 bits flipped
